@@ -31,7 +31,10 @@ class RSim(mosaik_api_v3.Simulator):
         if f and f[0] == kind and self.nreq[kind] == f[1]:
             if f[2] == 'exit': os._exit(3)
             if f[2] == 'raise': raise RuntimeError('injected fault')
+            if f[2].startswith('badreply'):
+                self.nreq[kind] += 1; return True        # (the simulator stays alive; its reply is what is wrong)
         self.nreq[kind] += 1
+        return False
 
     def setup_done(self):
         f = self.fault
@@ -40,7 +43,7 @@ class RSim(mosaik_api_v3.Simulator):
             if f[2] == 'raise': raise RuntimeError('injected fault')
 
     def step(self, time_, inputs, max_advance):
-        self._fault('step')
+        if self._fault('step'): return time_          # a next step that is not later than the current one
         time.sleep(self.rng.choice([0, 0, 0.002, 0.005]))
         self.time = time_
         k = self.count.get(time_, 0); self.count[time_] = k + 1; self.k = k
